@@ -456,8 +456,12 @@ inline int main_impl(int argc, char** argv)
     if (mode == "--rc")
     {
         bool seen_failure = false;
+        std::size_t shrink_runs = 0;
         bool const ok = rc::check(std::string("property ") + property.id, [&]() {
             auto const tape = *tape_gen();
+            // bounded shrinking: after the budget every further shrink candidate counts as passing, which ends
+            // rapidcheck's search at the smallest failing tape found so far
+            if (seen_failure && ++shrink_runs > 1500) { return; }
             Outcome const o = execute(tape);
             if (!o.ok)
             {
